@@ -261,6 +261,29 @@ theorem fixFields_erase_wt : ∀ (kvs : EKvs) (fs : Fields),
     simp [eraseKvs, fixFields, fix_erase_wt e _ _ _ h.1.2, fixFields_erase_wt r fs h.2]
 end
 
+/-! ### saturation of `ArrayDim`
+An array literal typed one dimension above the type `fix` is run at is still
+fixed correctly (`ArrayDim` saturates at 0): this is why the operand of an
+array split can be converted at the parameter's own type. -/
+mutual
+theorem fix_erase_wt_succ : ∀ (e : Exp) (b : Base) (ad md : Nat),
+    wt b (ad + 1) md e = true → fix b ad md (erase e) = e
+  | .lit _, _, _, _, _ => by simp [erase, fix]
+  | .arr xs, b, ad, md, h => by
+    simp only [wt, Bool.and_eq_true, decide_eq_true_eq, Nat.add_sub_cancel] at h
+    simp only [erase, fix]
+    cases ad with
+    | zero => simp [fixList_erase_wt xs b 0 md h.2]
+    | succ k => simp [fixList_erase_wt_succ xs b k md h.2]
+  | .map k kvs, b, ad, md, h => by simp [wt] at h
+theorem fixList_erase_wt_succ : ∀ (xs : EList) (b : Base) (ad md : Nat),
+    wtList b (ad + 1) md xs = true → fixList b ad md (eraseList xs) = xs
+  | .nil, _, _, _, _ => by simp [eraseList, fixList]
+  | .cons e r, b, ad, md, h => by
+    simp only [wtList, Bool.and_eq_true] at h
+    simp [eraseList, fixList, fix_erase_wt_succ e b ad md h.1, fixList_erase_wt_succ r b ad md h.2]
+end
+
 /-! ### `fix` at a scalar type is the identity (justifies `Fields.findD`) -/
 mutual
 theorem fix_scalar : ∀ (e : Exp), fix .scalar 0 0 e = e
